@@ -85,6 +85,40 @@ def check(run: Run, prog: Program, model: Model, tier: str) -> None:
             else:
                 run.violated("SEP-THREAD", c, loc, f"{ast.unparse(r)}.join(...) re-joins the tail with something else than the separator",
                              witness="rollout({'a/b/c': 1}, separator='/') yields key 'b.c' at depth 2")
+    # find()/index() based splitting: the tail must start len(separator) after the hit
+    pos_names: Set[str] = set()
+    for n in ast.walk(fn):
+        if isinstance(n, ast.Assign) and isinstance(n.value, ast.Call) and isinstance(n.value.func, ast.Attribute) \
+                and n.value.func.attr in ("find", "index", "rfind", "rindex") and len(n.targets) == 1 and isinstance(n.targets[0], ast.Name):
+            a0 = n.value.args[0] if n.value.args else None
+            n_split += 1
+            c = f"rollout: {n.value.func.attr} #{n_split}"
+            loc = f"{f.module.path}:{n.lineno}"
+            if isinstance(a0, ast.Name) and a0.id == sep:
+                pos_names.add(n.targets[0].id)
+                run.holds("SEP-THREAD", c, loc, f".{n.value.func.attr}({sep})", nontrivial=False)
+            else:
+                run.violated("SEP-THREAD", c, loc, f"searches for {ast.unparse(a0) if a0 is not None else 'nothing'} instead of the separator parameter",
+                             witness="rollout({'a/b': 1}, separator='/') is not split")
+    n_tail = 0
+    for n in ast.walk(fn):
+        if isinstance(n, ast.Subscript) and isinstance(n.slice, ast.Slice) and n.slice.lower is not None and names(n.slice.lower) & pos_names:
+            lo = n.slice.lower
+            n_tail += 1
+            c = f"rollout: tail slice #{n_tail}"
+            loc = f"{f.module.path}:{n.lineno}"
+            ok_len = isinstance(lo, ast.BinOp) and isinstance(lo.op, ast.Add) and any(
+                isinstance(x, ast.Call) and isinstance(x.func, ast.Name) and x.func.id == "len" and x.args
+                and isinstance(x.args[0], ast.Name) and x.args[0].id == sep for x in (lo.left, lo.right))
+            const = isinstance(lo, ast.BinOp) and any(isinstance(x, ast.Constant) for x in (lo.left, lo.right))
+            if ok_len:
+                run.holds("SEP-THREAD", c, loc, f"tail starts at hit + len({sep})", nontrivial=True)
+            elif const or isinstance(lo, ast.Name):
+                run.violated("SEP-THREAD", c, loc,
+                             f"tail starts at `{ast.unparse(lo)}`: correct only for a one-character separator",
+                             witness="rollout({'a__b': 1}, separator='__') yields {'a': {'_b': 1}}")
+            else:
+                run.undecided("SEP-THREAD", c, loc, f"tail offset `{ast.unparse(lo)}` not recognised")
     run.floor("SEP-THREAD", 3)
 
     # ---------------------------------------------------------------- stores
@@ -225,4 +259,13 @@ MUTANTS = [
     {"name": "neutral: recursion written as an if statement", "expect": "SILENT",
      "edits": [(U, "        updated[k] = rollout(v, separator=separator) if isinstance(v, dict) else v",
                 "        if isinstance(v, dict):\n            updated[k] = rollout(v, separator=separator)")]},
+]
+
+MUTANTS += [
+    {"name": "head/tail split with find() and a fixed +1 offset", "rule": "SEP-THREAD",
+     "edits": [(U, "        parts = comp_key.split(separator)\n        key = parts[0]\n        if len(parts) == 1:\n            updated[optional(key) if is_optional else key] = val\n        else:\n            if key not in updated:\n                updated[key] = {}\n            tail = separator.join(parts[1:])\n",
+                "        pos = comp_key.find(separator)\n        if pos == -1:\n            updated[optional(comp_key) if is_optional else comp_key] = val\n        else:\n            key, tail = comp_key[:pos], comp_key[pos + 1:]\n            if key not in updated:\n                updated[key] = {}\n")]},
+    {"name": "neutral: find()-based split with len(separator)", "expect": "SILENT",
+     "edits": [(U, "        parts = comp_key.split(separator)\n        key = parts[0]\n        if len(parts) == 1:\n            updated[optional(key) if is_optional else key] = val\n        else:\n            if key not in updated:\n                updated[key] = {}\n            tail = separator.join(parts[1:])\n",
+                "        pos = comp_key.find(separator)\n        if pos == -1:\n            updated[optional(comp_key) if is_optional else comp_key] = val\n        else:\n            key, tail = comp_key[:pos], comp_key[pos + len(separator):]\n            if key not in updated:\n                updated[key] = {}\n")]},
 ]
